@@ -172,7 +172,7 @@ def make_specs(ctx, n):
 
 def run(ctx):
     quick = ctx.tier == "quick"
-    n = 300 if quick else 8000
+    n = 300 if quick else 4000
     specs = make_specs(ctx, n)
     per = 8 if quick else 50
     cases = [{"specs": specs[i:i + per], "e2e": 1} for i in range(0, n, per)]
